@@ -16,7 +16,7 @@ ASSUMPTIONS = [
 BOUNDS = {
     # profile, cfgs, depth, shard k, number of refused calls
     'quick': [('quick', ops.CFG_MULTI[1:5], 1, 1, 1), ('quick', ops.CFG_MULTI[3:4], 2, 1, 1)],
-    'thorough': [('quick', ops.CFG_MULTI + ops.CFG12[:3], 2, 1, 1), ('quick', ops.CFG_MULTI[3:4], 3, 2, 1), ('quick', ops.CFG_MULTI[1:4], 1, 1, 2)],
+    'thorough': [('quick', ops.CFG_MULTI + ops.CFG12[:3], 2, 1, 1), ('quick', ops.CFG_MULTI[1:4], 1, 1, 2)],
 }
 
 
